@@ -604,10 +604,21 @@ impl Workload {
                     src: h,
                     new: self.fresh_handle(),
                 },
-                0..=8 if !clears.is_empty() => Step::Clear {
-                    h,
-                    what: *r.pick(&clears),
-                },
+                0..=8 if !clears.is_empty() => {
+                    // mostly clear a clause the handle actually has (clearing an empty clause
+                    // exercises little), sometimes any clause
+                    let populated: Vec<ClearKind> = clears
+                        .iter()
+                        .copied()
+                        .filter(|c| m.log.ops.iter().any(|o| o.clause() == c.clause()))
+                        .collect();
+                    let what = if !populated.is_empty() && r.pct(70) {
+                        *r.pick(&populated)
+                    } else {
+                        *r.pick(&clears)
+                    };
+                    Step::Clear { h, what }
+                }
                 0..=8 => self.gen_builder_op(r, sim, h),
                 _ => Step::Drop { h },
             };
